@@ -880,6 +880,10 @@ type item struct {
 	First string
 }
 
+// third: the kinds allowed as the third command of a pipeline (one per response-routing mechanism)
+var third = map[string]bool{"NOOP": true, "STATUS a": true, "LIST": true, "FETCH 1:2": true, "SEARCH": true, "UID SEARCH esearch": true,
+	"EXPUNGE": true, "SELECT m": true, "APPEND sync": true, "COPY": true, "UNSELECT": true}
+
 func enumerate(ks []kind, thorough bool) []item {
 	var items []item
 	maxCmds := 2
@@ -905,6 +909,9 @@ func enumerate(ks []kind, thorough bool) []item {
 				continue // one extra position only for the second command of an ambiguity class
 			}
 			ok := true
+			if len(prefix) == 2 && ks[k].dupOf == "" && !third[ks[k].name] {
+				ok = false // thorough tier: the third command of a pipeline comes from a representative subset
+			}
 			if len(prefix) >= 2 && ks[k].dupOf == "" {
 				for _, p := range prefix {
 					if ks[p].ext {
@@ -1133,7 +1140,7 @@ func main() {
 	run.Set("work_items", int64(len(items)))
 	run.Set("command_kinds", int64(len(ks)))
 	run.Exhaustive = true
-	run.Rule = "scenario = (start state in {authenticated, selected; not authenticated with every command refused}, pipeline of <=2 (3 thorough) pairwise-unambiguous commands from 32 kinds (NOOP, three STATUS incl. two names differing by case only, LIST, 4 FETCH forms, STORE, SEARCH, ESEARCH, EXPUNGE, SELECT, CAPABILITY, two APPEND forms, COPY, ENABLE, UNSELECT, SORT, THREAD, GETQUOTA, GETMETADATA, NAMESPACE; a second LIST / SEARCH / EXPUNGE / FETCH / UID SORT / GETQUOTAROOT only behind the first of its ambiguity class and answered in issue order; a second ESEARCH behind the first one answered in any order since its data carries the tag; one FETCH answered in descending order), outcome per command in {OK, OK [code], NO, NO [code], BAD}, one interleaving of all response lines that keeps each command's own lines in order) or (context in {selected, authenticated, during a failing SELECT, during IDLE}, sequence of <=3 (4) unilateral responses from 9); each executed once on the real client (default schedule) with a state/mailbox comparison after every server line and a status/data comparison per command, then a final NOOP. states = scenarios, transitions = scheduling points, traces = executions"
+	run.Rule = "scenario = (start state in {authenticated, selected; not authenticated with every command refused}, pipeline of <=2 (3 thorough, the third one from an 11-kind subset) pairwise-unambiguous commands from 32 kinds (NOOP, three STATUS incl. two names differing by case only, LIST, 4 FETCH forms, STORE, SEARCH, ESEARCH, EXPUNGE, SELECT, CAPABILITY, two APPEND forms, COPY, ENABLE, UNSELECT, SORT, THREAD, GETQUOTA, GETMETADATA, NAMESPACE; a second LIST / SEARCH / EXPUNGE / FETCH / UID SORT / GETQUOTAROOT only behind the first of its ambiguity class and answered in issue order; a second ESEARCH behind the first one answered in any order since its data carries the tag; one FETCH answered in descending order), outcome per command in {OK, OK [code], NO, NO [code], BAD}, one interleaving of all response lines that keeps each command's own lines in order) or (context in {selected, authenticated, during a failing SELECT, during IDLE}, sequence of <=3 (4) unilateral responses from 9); each executed once on the real client (default schedule) with a state/mailbox comparison after every server line and a status/data comparison per command, then a final NOOP. states = scenarios, transitions = scheduling points, traces = executions"
 	run.Assume("while a SELECT is in flight the mailbox summary is not compared (the transcript does not determine it)")
 	run.Assume("a failed SELECT in selected state leaves no mailbox selected (RFC 9051 §6.3.2); BYE alone does not change the reported state")
 	run.Finish()
